@@ -83,6 +83,12 @@ CLAIMED = {
             "adversary gets proof of work for free, so rejection comes from the commitments.",
             "Lazy-table hash oracles (collision-free on the run), ideal signatures, chain-sample oracle; single-byte alterations of two block shapes.",
             "DESIGN.md 4/C06"),
+    "C03": ("CrossHair symbolic execution of add_block_no_validation / uto_apply_* / pkb_apply_* / PublicKeyBalances (step from a consistent state + all trees <= 4/5 blocks)",
+            "Solver verdict: the new block's unspent map equals a reference application to the parent's map for every parent choice and served head, "
+            "all other entries are the identical objects and the old state is unchanged; the (unspent, balances) consistency invariant is preserved "
+            "for symbolic owners and values; the replayed balance view reads only ancestors and equals a recount of the stored map; per-block maps "
+            "are equal across arrival orders on every tree of <= 4 (quick) / 5 (thorough) blocks.",
+            "PyMap for immutables.Map, preset ids; validity precondition of C01 assumed for the applied block.", "DESIGN.md 4/C03"),
 }
 
 NOT_YET = "not claimed yet in this revision of /verif: the check is still being built (see DESIGN.md section 4 for the planned decision procedure)"
